@@ -228,7 +228,9 @@ def guards(node, stop=None):
     out = []
     child = node
     for a in ancestors(node):
-        if isinstance(a, ast.If) or isinstance(a, ast.While):
+        if a is stop:
+            pass    # the stop node's own condition is not a guard *within* it
+        elif isinstance(a, ast.If) or isinstance(a, ast.While):
             if any(child is s for s in a.body):
                 _flatten_atom(a.test, True, out)
             elif any(child is s for s in a.orelse) and isinstance(a, ast.If):
@@ -539,11 +541,15 @@ class Repo(object):
             return ("ext", U(node))
         # a local/parameter shadows module symbols
         head = d.split(".")[0]
-        fn = enclosing_function(node)
-        while fn is not None:
-            if head in local_names(fn):
-                return ("local", d)
-            fn = enclosing_function(fn)
+        for sc in scopes_of(node):
+            if isinstance(sc, FUNC_TYPES + (ast.Lambda,)):
+                if head in local_names(sc):
+                    return ("local", d)
+            elif isinstance(sc, ast.ClassDef) and sc is scopes_of(node)[0]:
+                # class-body scope is visible only to code directly in the class body
+                q = sc._qual + "." + head
+                if q in mod.defs or any(isinstance(st, ast.Assign) and any(isinstance(t, ast.Name) and t.id == head for t in st.targets) for st in sc.body):
+                    return self.resolve_dotted(mod, sc._qual + "." + d, depth)
         return self.resolve_dotted(mod, d, depth)
 
     def resolved_id(self, node):
@@ -624,6 +630,27 @@ class Repo(object):
 _LOCAL_CACHE = {}
 
 
+def scopes_of(node):
+    """Enclosing scopes (innermost first).  Decorators, default values and base
+    classes are evaluated in the scope *outside* the def they belong to."""
+    out = []
+    child = node
+    for a in ancestors(node):
+        if isinstance(a, FUNC_TYPES):
+            in_header = any(child is d for d in a.decorator_list) or child is a.args or child is a.returns
+            if not in_header:
+                out.append(a)
+        elif isinstance(a, ast.Lambda):
+            if child is a.body:
+                out.append(a)
+        elif isinstance(a, ast.ClassDef):
+            in_header = any(child is d for d in a.decorator_list) or any(child is b for b in a.bases) or any(child is k for k in a.keywords)
+            if not in_header:
+                out.append(a)
+        child = a
+    return out
+
+
 def local_names(fn):
     """Names bound in the function scope (params, assignments, loops, with, except, imports)."""
     k = id(fn)
@@ -631,6 +658,14 @@ def local_names(fn):
         return _LOCAL_CACHE[k]
     names = set()
     a = fn.args
+    if isinstance(fn, ast.Lambda):
+        names = set(x.arg for x in a.posonlyargs + a.args + a.kwonlyargs)
+        if a.vararg:
+            names.add(a.vararg.arg)
+        if a.kwarg:
+            names.add(a.kwarg.arg)
+        _LOCAL_CACHE[k] = names
+        return names
     for x in a.posonlyargs + a.args + a.kwonlyargs:
         names.add(x.arg)
     if a.vararg:
